@@ -16,6 +16,9 @@ import multiprocessing
 from collections import Counter
 
 VERIF = os.path.dirname(os.path.dirname(os.path.abspath(__file__)))
+# Sensitivity runs (a patched scratch copy named by VERIF_REPO) set VF_OUT so that their evidence and V- replays do not
+# overwrite those of the real tree; registered commands never set it.
+OUT = os.environ.get("VF_OUT") or VERIF
 NPROC = int(os.environ.get("VERIF_NPROC", "16"))
 
 
@@ -215,18 +218,18 @@ def _merge(results):
 
 
 def write_replay(pid, case, detail, tier, seed, prefix="V"):
-    d = os.path.join(VERIF, "replays", pid)
+    d = os.path.join(OUT, "replays", pid)
     os.makedirs(d, exist_ok=True)
     h = hashlib.sha1(json.dumps(case, sort_keys=True, default=str).encode()).hexdigest()[:12]
     path = os.path.join(d, "%s-%s.json" % (prefix, h))
     with open(path, "w") as f:
         json.dump({"property": pid, "detail": detail, "found": {"tier": tier, "seed": seed}, "case": case}, f,
                   indent=1, default=str)
-    return os.path.relpath(path, VERIF)
+    return os.path.relpath(path, OUT) if OUT == VERIF else path
 
 
 def write_evidence(pid, tier, seed, mod, tot, wall, violations, extra=None):
-    os.makedirs(os.path.join(VERIF, "evidence"), exist_ok=True)
+    os.makedirs(os.path.join(OUT, "evidence"), exist_ok=True)
     n = max(tot["evaluations"], 1)
     cov = dict(
         evaluations=tot["evaluations"],
@@ -244,7 +247,7 @@ def write_evidence(pid, tier, seed, mod, tot, wall, violations, extra=None):
         cov.update(extra)
     ev = dict(property_id=pid, tier=tier, seed=seed, level="exploration", coverage=cov,
               assumptions=list(getattr(mod, "ASSUMPTIONS", [])), wall_s=round(wall, 2), violations=violations)
-    with open(os.path.join(VERIF, "evidence", "%s.json" % pid), "w") as f:
+    with open(os.path.join(OUT, "evidence", "%s.json" % pid), "w") as f:
         json.dump(ev, f, indent=1, default=str)
 
 
